@@ -676,3 +676,10 @@ func vh_C12_L2_heartbeat_ack_with_trailing_zeros_bundled() {
 	}
 	vcover("end")
 }
+
+// C12.L6: the packets a server emits after an INIT decode locally with checksum verification
+// on: a Zero Checksum Acceptable parameter naming another method than DTLS does not switch
+// the checksum off (= C13.L3b).
+func vh_C12_L6_checksum_kept_unless_dtls_method_offered() {
+	vh_C13_L3_learned_only_from_wellformed_parameter()
+}
